@@ -2,7 +2,10 @@
 //!
 //! `trapsproc`: process-level runs of the real CLI (`vbrush`, built from /repo by this crate).
 //!   Case fields: <frontend c|f|s> <shell: v = vbrush | b = /usr/bin/bash> <script> (<file name> <file content>)*
-//!   Output: `<exit status> <hex stdout>` (status -1: killed by signal / timeout: `TIMEOUT`).
+//!   Output: `<exit status> <hex stdout> <elapsed ms>` (status -1: killed by signal / timeout: `TIMEOUT`).
+//!   Every case runs in its own process group, killed when the case ends; the child is capped by
+//!   RLIMIT_CPU and RLIMIT_AS. Wall budget per case: env VERIF_CASE_TIMEOUT (seconds, default 20),
+//!   CPU budget: VERIF_CASE_CPU (seconds, default = wall budget + 10).
 //!   The script may refer to `$D` (exported): the case's private scratch directory where the
 //!   extra files (sourced scripts) are written.
 use crate::util::{hex, unhex_str};
@@ -33,6 +36,8 @@ fn main_proc(cases: &[Vec<String>]) {
     let dir = format!("{base}/traps-{}", std::process::id());
     let _ = std::fs::create_dir_all(&dir);
     let vb = vbrush_path();
+    let wall: u64 = std::env::var("VERIF_CASE_TIMEOUT").ok().and_then(|s| s.parse().ok()).unwrap_or(20);
+    let cpu: u64 = std::env::var("VERIF_CASE_CPU").ok().and_then(|s| s.parse().ok()).unwrap_or(wall + 10);
     for (k, c) in cases.iter().enumerate() {
         let fe = c.first().map(|s| unhex_str(s)).unwrap_or_default();
         let which = c.get(1).map(|s| unhex_str(s)).unwrap_or_default();
@@ -80,6 +85,18 @@ fn main_proc(cases: &[Vec<String>]) {
         {
             use std::os::unix::process::CommandExt as _;
             cmd.process_group(0);
+            // caps inherited by everything the case forks: CPU seconds and address space
+            #[allow(unsafe_code)]
+            // SAFETY: setrlimit(2) is async-signal-safe; nothing else happens between fork and exec.
+            unsafe {
+                cmd.pre_exec(move || {
+                    let c = libc::rlimit { rlim_cur: cpu, rlim_max: cpu };
+                    libc::setrlimit(libc::RLIMIT_CPU, &c);
+                    let a = libc::rlimit { rlim_cur: 6 << 30, rlim_max: 6 << 30 };
+                    libc::setrlimit(libc::RLIMIT_AS, &a);
+                    Ok(())
+                });
+            }
         }
         let line = match cmd.spawn() {
             Err(e) => format!("SPAWNFAIL {}", hex(e.to_string().as_bytes())),
@@ -96,7 +113,7 @@ fn main_proc(cases: &[Vec<String>]) {
                 });
                 let start = Instant::now();
                 let mut status = None;
-                while start.elapsed() < Duration::from_secs(20) {
+                while start.elapsed() < Duration::from_secs(wall) {
                     match child.try_wait() {
                         Ok(Some(st)) => {
                             status = Some(st);
@@ -119,7 +136,13 @@ fn main_proc(cases: &[Vec<String>]) {
                 } else {
                     let out = t.join().unwrap_or_default();
                     let code = status.and_then(|s| s.code()).unwrap_or(-1);
-                    format!("{} {}", hex(code.to_string().as_bytes()), hex(&out))
+                    let ms = start.elapsed().as_millis();
+                    format!(
+                        "{} {} {}",
+                        hex(code.to_string().as_bytes()),
+                        hex(&out),
+                        hex(ms.to_string().as_bytes())
+                    )
                 }
             }
         };
